@@ -738,8 +738,9 @@ pub fn config(rng: &mut Rng, act: &str, paths: &[String], bench_mode: bool) -> V
 pub fn gen(rng: &mut Rng, n: usize) -> Vec<String> {
     let mut out = Vec::new();
     while out.len() < n {
-        let act = ["test", "test", "list", "terse", "terse", "bench", "listapi", "testapi"][rng.below(8) as usize];
-        let bench_mode = act == "bench";
+        // `benchapi`: `config_with_args()` without `--bench` (configured action: test), then `run_benches()`
+        let act = ["test", "test", "list", "terse", "terse", "bench", "listapi", "testapi", "benchapi"][rng.below(9) as usize];
+        let bench_mode = act == "bench" || act == "benchapi";
         let mut g = Gen { rng, items: vec![], paths: vec![], slots: 0, line: 1, col: 0, bench_mode, names_with_spaces: !bench_mode && act != "terse" };
         let size = g.rng.below(3);
         g.module("bc", if size == 0 { 2 } else { 0 });
